@@ -298,7 +298,7 @@ func (s *trState) cbChoiceRet(a int, read bool) string {
 			switch {
 			case r.Res.Cls == "panic":
 				return "cbPanic"
-			case r.Res.Cls == "dup":
+			case r.Res.Cls == "dup", r.Res.Cls == "nodoc":
 				return "cbNoop" // write error inside the result, the callback itself succeeded
 			case r.Res.Cls != "ok":
 				return "cbErr"
